@@ -1265,6 +1265,7 @@ pub fn worker(input: &Value) -> Value {
     let mut determinism_checked = 0u64;
     let want_trace = input["trace"].as_bool().unwrap_or(false);
     let mut trace: Vec<Value> = Vec::new();
+    let mut abandoned = 0;
     let mut run = shard;
     while run < runs {
         let sc = if property == "C13" { gen_sequential(seed, boot_seed, run) } else { gen_concurrent(seed, boot_seed, run) };
@@ -1301,6 +1302,17 @@ pub fn worker(input: &Value) -> Value {
         overlapped += rep.overlapped_rmw;
         if let Some(h) = &rep.harness_error {
             harness_errors.push(json!({"what": h, "scenario": sc.to_json()}));
+            // circuit breaker: a run the watchdog had to abandon left a thread blocked on state
+            // of the code under test; if that state is process-wide, every later run of this
+            // worker blocks on it too (a minute each). Two abandoned runs end the worker: what it
+            // found so far is reported, the rest of its share is not run.
+            if h.contains(crate::run::WATCHDOG) {
+                abandoned += 1;
+                if abandoned >= 2 {
+                    harness_errors.push(json!({"what": "worker stopped after two abandoned runs", "runs_done": n, "runs_planned": runs / shards}));
+                    break;
+                }
+            }
         }
         // determinism: every 64th run is executed again from its explicit record
         if run % 64 == shard % 64 && rep.harness_error.is_none() {
